@@ -6,6 +6,7 @@ Import ListNotations.
 From GA.Base Require Import Bytes.
 From GA.Gen Require Import Subst.
 From GA.Spec Require Import Local.
+From GA.Spec Require LocalEnum.
 From GA.Model Require Import SW.
 From GA.Proofs Require Import SWProofs.
 Local Open Scope Z_scope.
@@ -54,6 +55,15 @@ Print Assumptions C09_oracle_nonneg.
    valid / score-sound / optimal for all inputs.  They are checked on every
    generated and enumerated pair: validity through the sound checker above,
    score-soundness and optimality against the independent Gotoh program. *)
+(* Validation of the oracle itself (a FINITE statement, by exhaustive evaluation in the kernel): on every
+   pair of words of length 1..3 over {A, C, G} and four scoring schemes the Gotoh program returns exactly
+   the maximum, over every pair of substrings and every global alignment of them, of the alignment score *)
+Theorem C09_oracle_is_optimal_on_small_words :
+  forall sc s1 s2, In sc small_schemes -> In s1 small_words -> In s2 small_words ->
+  let '(m, x, o, e) := sc in gotoh_best (LocalEnum.mm m x) o e s1 s2 = LocalEnum.best_enum (LocalEnum.mm m x) o e s1 s2.
+Proof. exact gotoh_matches_enumeration_small. Qed.
+Print Assumptions C09_oracle_is_optimal_on_small_words.
+
 Definition C09_gotoh_is_optimal_statement : Prop :=
   forall (sub : byte -> byte -> Z) opn ext s1 s2 r1 r2 st1 st2 en1 en2,
   opn <= ext -> ext < 0 -> valid_alignment s1 s2 r1 r2 st1 st2 en1 en2 ->
